@@ -199,3 +199,17 @@ func globalGetters(c *mon.Ctx, w *world) {
 	getterPrivacy(c, w, "babybear.Modulus", func() any { return babybear.Modulus() })
 	getterPrivacy(c, w, "goldilocks.Modulus", func() any { return goldilocks.Modulus() })
 }
+
+// callMap calls a map-to-curve function that takes a field element by pointer or by value and returns a point.
+func callMap(fn any, u any) []byte {
+	f := reflect.ValueOf(fn)
+	arg := reflect.ValueOf(u)
+	if f.Type().In(0).Kind() != reflect.Pointer {
+		arg = arg.Elem()
+	}
+	out := f.Call([]reflect.Value{arg})[0]
+	p := reflect.New(out.Type())
+	p.Elem().Set(out)
+	b := p.MethodByName("RawBytes").Call(nil)[0]
+	return []byte(fmt.Sprintf("%x", b.Interface()))
+}
